@@ -9,6 +9,7 @@ import (
 	"path/filepath"
 	"strings"
 	"sync"
+	"syscall"
 	"time"
 )
 
@@ -54,10 +55,24 @@ func goalTerm(o *Obligation, withExcl bool) string {
 const header = "(set-option :produce-models true)\n(set-logic ALL)\n"
 
 func runSolver(s Solver, file string, timeoutMs int) (string, float64) {
-	ctx, cancel := context.WithTimeout(context.Background(), time.Duration(timeoutMs*3+5000)*time.Millisecond)
+	return runSolverCtx(context.Background(), s, file, timeoutMs, 0)
+}
+
+// runSolverCtx runs one solver in its own process group under a context: a solver that ignores its own
+// time limit (cvc5 does on some quantified goals) must not outlive this process when it is killed.
+// hardMs > 0 bounds the whole run (batch files hold many queries, each with its own limit).
+func runSolverCtx(parent context.Context, s Solver, file string, timeoutMs, hardMs int) (string, float64) {
+	if hardMs <= 0 {
+		hardMs = timeoutMs*3 + 5000
+	}
+	ctx, cancel := context.WithTimeout(parent, time.Duration(hardMs)*time.Millisecond)
 	defer cancel()
 	start := time.Now()
 	cmd := exec.CommandContext(ctx, s.Bin, s.Args(timeoutMs, file)...)
+	// own process group, killed as a group on cancel; killed by the kernel if this process dies
+	cmd.SysProcAttr = &syscall.SysProcAttr{Setpgid: true, Pdeathsig: syscall.SIGKILL}
+	cmd.Cancel = func() error { return syscall.Kill(-cmd.Process.Pid, syscall.SIGKILL) }
+	cmd.WaitDelay = 2 * time.Second
 	var out bytes.Buffer
 	cmd.Stdout = &out
 	cmd.Stderr = &out
@@ -112,7 +127,8 @@ func Discharge(fr *FuncResult, dir string, batchMs, singleMs int, stats *SolveSt
 	}
 	file := base + ".batch.smt2"
 	os.WriteFile(file, []byte(b.String()), 0o644)
-	out, secs := runSolver(solvers[0], file, batchMs)
+	hard := batchMs*len(fr.Obls) + 10000
+	out, secs := runSolverCtx(context.Background(), solvers[0], file, batchMs, hard)
 	ans := parseAnswers(out)
 	stats.mu.Lock()
 	stats.Seconds[solvers[0].Name] += secs
@@ -127,7 +143,7 @@ func Discharge(fr *FuncResult, dir string, batchMs, singleMs int, stats *SolveSt
 			}
 		}
 		if und > 3 {
-			out2, secs2 := runSolver(solvers[1], file, batchMs)
+			out2, secs2 := runSolverCtx(context.Background(), solvers[1], file, batchMs, hard)
 			ans2 := parseAnswers(out2)
 			stats.mu.Lock()
 			stats.Seconds[solvers[1].Name] += secs2
@@ -253,9 +269,11 @@ func single(fr *FuncResult, o *Obligation, base string, idx, timeoutMs int, stat
 		secs   float64
 	}
 	ch := make(chan answer, len(solvers))
+	pctx, pcancel := context.WithCancel(context.Background())
+	defer pcancel() // the first decisive answer stops the other solvers
 	for _, s := range solvers {
 		go func(s Solver) {
-			out, secs := runSolver(s, file, timeoutMs)
+			out, secs := runSolverCtx(pctx, s, file, timeoutMs, 0)
 			as := parseAnswers(out)
 			a := "unknown"
 			if len(as) > 0 {
